@@ -7,6 +7,7 @@ pub mod c14;
 pub mod gad;
 #[path = "../../scheme/src/sch.rs"]
 pub mod sch;
+pub mod c10b;
 pub mod c12b;
 pub mod c15;
 pub mod c17b;
@@ -25,6 +26,7 @@ fn main() {
         let (prop, sub, case) = read_replay(&args[1]);
         let ctx = Ctx::from_args(&prop, &[]);
         let code = match prop.as_str() {
+            "C10" => c10b::replay(&ctx, &sub, &case),
             "C12" => c12b::replay(&ctx, &sub, &case),
             "C17" => c17b::replay(&ctx, &sub, &case),
             "C13" => c13::replay(&ctx, &sub, &case),
@@ -41,6 +43,10 @@ fn main() {
     let prop = args[0].clone();
     let ctx = Ctx::from_args(&prop, &args[1..]);
     let code = match prop.as_str() {
+        "C10" => {
+            c10b::run_all(&ctx);
+            ctx.finish(c10b::RULE, &["the keys of TestContext are generated per backend from the same fixed seeds: a difference in key generation shows up as a difference of the results"], &[("three_backends_identical", 20)])
+        }
         "C12" => {
             c12b::run_all(&ctx);
             ctx.finish(c12b::RULE, &["blind rotation, circuit bootstrapping and the key encryption / preparation routines are reached through fhe_uint_prepare and TestContext only; their own size queries are not audited separately"], &[("multi_thread", 20), ("fhe_uint_prepare", 4)])
